@@ -56,6 +56,13 @@ def gen_inputs(rng, spec, n=None, capacity_ok=None):
             lim = 0.9 * c["rated"]
             d["given"] = [float(np.round(rng.uniform(-lim, lim), 2)) for _ in range(n)]
         inp["comp"][c["name"]] = d
+    # power series written by hand are often whole numbers in an integer array ([0, 0, 100, -50])
+    inp["dtype"]["power"] = str(rng.choice(["float", "int"], p=[0.8, 0.2]))
+    if inp["dtype"]["power"] == "int":
+        for d in inp["comp"].values():
+            for key in ("load", "given"):
+                if key in d:
+                    d[key] = [float(round(x)) for x in d[key]]
     return inp
 
 
@@ -65,10 +72,13 @@ def apply_inputs(plant, inp, copy=True):
     n = inp["n"]
     DT = {"bool": bool, "int": int, "float": float}
     st_dt, br_dt = DT[inp.get("dtype", {}).get("status", "bool")], DT[inp.get("dtype", {}).get("breaker", "bool")]
+    pw_dt = int if inp.get("dtype", {}).get("power", "float") == "int" else float
     cache = {}
 
     def arr(values, dt=float):
         """a fresh array, or (alias mode) the one array object already made for the same series"""
+        if dt is int and not all(float(v).is_integer() for v in values):
+            dt = float
         if not inp.get("alias"):
             return np.array(values, dtype=dt)
         key = (np.dtype(dt).name, tuple(values))
@@ -86,11 +96,11 @@ def apply_inputs(plant, inp, copy=True):
             obj.status = arr(d["status"], st_dt)
             obj.load_sharing_mode = mode_arr(d["share"])
         elif k in ("other_load", "drive"):
-            obj.set_power_input_from_output(arr(d["load"]))
+            obj.set_power_input_from_output(arr(d["load"], pw_dt))
         else:
             obj.status = arr(d["status"], st_dt)
             obj.load_sharing_mode = mode_arr(d["mode"])
-            obj.power_input = arr(d["given"])
+            obj.power_input = arr(d["given"], pw_dt)
     ties = plant.spec.get("bus_ties", [])
     if ties:
         sys_.set_bus_tie_status_all(np.array(inp["breaker"], dtype=br_dt).T.reshape(n, len(ties)))
@@ -191,6 +201,7 @@ def gen_case(rng, idx, **kw):
     spec = plants.gen_electric_plant(rng, **kw)
     if rng.random() < 0.5:      # components listed in random order
         spec["order"] = [int(i) for i in rng.permutation(len(spec["electric"]))]
+    plants.mark_int_ratings(rng, spec)
     return {"idx": idx, "spec": spec, "inputs": gen_inputs(rng, spec)}
 
 
